@@ -31,23 +31,25 @@ type EpochRef struct {
 
 type knobs struct {
 	nVal, spare, observers, personalities int
-	weightMode                           int
-	weights                              []uint64
-	cheaters                             map[uint32]bool
-	heavyByz                             bool
-	maxParents                           int
-	cc                                   cacheCfg
-	bufNum, bufSize                      int
-	sealFrame                            int
-	maxEpochs                            int
-	vsetMode                             int
-	vsetSeed                             uint64
-	events                               int
-	dropPm, dupPm, fifoPm                int
-	partitionPm, restartPm, stallPm      int
-	activity                             []int
-	byzPm, specPm, syncPm                int
-	forkPm, oldParentPm                  int
+	weightMode                            int
+	weights                               []uint64
+	cheaters                              map[uint32]bool
+	heavyByz                              bool
+	maxParents                            int
+	cc                                    cacheCfg
+	bufNum, bufSize                       int
+	sealFrame                             int
+	maxEpochs                             int
+	vsetMode                              int
+	vsetSeed                              uint64
+	events                                int
+	dropPm, dupPm, fifoPm                 int
+	partitionPm, restartPm, stallPm       int
+	activity                              []int
+	byzPm, specPm, syncPm                 int
+	forkPm, oldParentPm                   int
+	deep                                  bool // one long epoch (hundreds of frames), few validators, mild faults
+	deepLagNode, deepLagFrom, deepLagTo   int  // a validator that is silent while the others advance > 100 frames
 }
 
 type msg struct {
@@ -434,9 +436,12 @@ func (cl *Cluster) emit(n *Node, kind int, delta int, sp int, others []int) *PEv
 	er := cd.er
 	rev := er.D.Add(n.val, cd.seq, cd.lamport, 0, cd.pl)
 	lo, hi := er.L.AllowedFrames(rev.I)
-	if cl.on["frame"] && built != hi {
-		cl.c.Violation("build-frame", "build-frame", "node %s: Build assigned frame %d to %s but the highest allowed frame is %d (allowed %d..%d)",
-			n.name, built, cl.descCand(cd), hi, lo, hi)
+	if want := ref.BuildFrame(lo, hi); cl.on["frame"] && built != want {
+		cl.c.Violation("build-frame", "build-frame", "node %s: Build assigned frame %d to %s but the highest allowed frame (at most 100 above the self-parent's) is %d (allowed %d..%d)",
+			n.name, built, cl.descCand(cd), want, lo, hi)
+	}
+	if hi > lo+ref.MaxFrameJump {
+		cl.c.Probe("build_capped_100_frames_above_self_parent")
 	}
 	claimed := built
 	if kind == 1 {
@@ -450,6 +455,9 @@ func (cl *Cluster) emit(n *Node, kind int, delta int, sp int, others []int) *PEv
 	valid := claimed >= lo && claimed <= hi
 	if valid {
 		er.L.Register(rev.I)
+		if sp >= 0 && claimed > lo+ref.MaxFrameJump {
+			cl.c.Probe("valid_claim_more_than_100_frames_above_self_parent")
+		}
 	}
 	me := cd.mutable()
 	me.SetFrame(idx.Frame(claimed))
@@ -507,7 +515,7 @@ func (cl *Cluster) specBuild(n *Node, count int, sp int, others []int) {
 	}
 	hi := uint32(0)
 	if cl.on["frame"] {
-		cd.er.D.Temp(n.val, cd.seq, cd.lamport, cd.pl, func(e int) { _, hi = cd.er.L.AllowedFrames(e) })
+		cd.er.D.Temp(n.val, cd.seq, cd.lamport, cd.pl, func(e int) { lo, h := cd.er.L.AllowedFrames(e); hi = ref.BuildFrame(lo, h) })
 	}
 	for i := 0; i < count; i++ {
 		built, ok := cl.build(cd)
